@@ -33,7 +33,7 @@ def run(ctx):
             vectors.append(v)
     if not vectors:
         raise vlib.NoVerdict("the model emitted no vector")
-    napi = 500 if quick else 12000
+    napi = 500 if quick else 15000
     for i, v in enumerate(vectors):
         v["api"] = i < napi
     ctx.log("%d vectors (%d also through the public API)" % (len(vectors), min(napi, len(vectors))))
